@@ -533,6 +533,31 @@ class Fn:
         return "(%s (%s) %s)" % (lname, fuel, args)
 
     def loop_for(self, st, env, nxt):
+        # `for i, x in enumerate(E): BODY` is `i = 0; for x in E: BODY; i = i + 1` when BODY does not assign i and i is not read after
+        # the loop (after the loop the two forms leave different values in i)
+        if (not st.orelse and isinstance(st.target, ast.Tuple) and len(st.target.elts) == 2 and all(isinstance(e, ast.Name) for e in st.target.elts)
+                and isinstance(st.iter, ast.Call) and isinstance(st.iter.func, ast.Name) and st.iter.func.id == "enumerate"
+                and len(st.iter.args) == 1 and not st.iter.keywords):
+            i, x = st.target.elts[0].id, st.target.elts[1].id
+            inside = {id(n) for n in ast.walk(st)}
+            scope = getattr(self, "f", None)
+            outside_loads = [n for n in (ast.walk(scope) if scope is not None else []) if isinstance(n, ast.Name) and n.id == i
+                             and isinstance(n.ctx, ast.Load) and id(n) not in inside]
+            body_stores = [n for b in st.body for n in ast.walk(b) if isinstance(n, ast.Name) and n.id == i and isinstance(n.ctx, ast.Store)]
+            if scope is None or outside_loads or body_stores or i in env:
+                bail(st, "enumerate form (index read after the loop, assigned in the body, or already bound)")
+            init = ast.copy_location(ast.Assign(targets=[ast.Name(id=i, ctx=ast.Store())], value=ast.Constant(value=0)), st)
+            inc = ast.copy_location(ast.Assign(targets=[ast.Name(id=i, ctx=ast.Store())],
+                                               value=ast.BinOp(left=ast.Name(id=i, ctx=ast.Load()), op=ast.Add(), right=ast.Constant(value=1))), st)
+            loop = ast.copy_location(ast.For(target=ast.Name(id=x, ctx=ast.Store()), iter=st.iter.args[0], body=list(st.body) + [inc], orelse=[]), st)
+            for n in (init, inc, loop):
+                ast.fix_missing_locations(n)
+            return self.block([init, loop], env, nxt)
+        # `for t in (a, b, ...): BODY` over a short literal of names/constants is BODY[t:=a]; BODY[t:=b]; ... when BODY has no
+        # break/continue, does not assign t, and t is not read after the loop
+        unrolled = self.unroll_literal_for(st, env)
+        if unrolled is not None:
+            return self.block(unrolled, env, nxt)
         if st.orelse or not isinstance(st.target, ast.Name):
             bail(st, "for form")
         for x in ast.walk(ast.Module(body=st.body, type_ignores=[])):
@@ -552,6 +577,55 @@ class Fn:
         env2[st.target.id] = Z
         body = self.block(st.body, env2, lambda e3: tup)
         return "(let %s := fold_left (fun %s %s => %s) %s %s in\n %s)" % (pat, pat, st.target.id, body, seq, tup, nxt(dict(env)))
+
+    def unroll_literal_for(self, st, env):
+        if st.orelse or not isinstance(st.iter, (ast.Tuple, ast.List)) or not (1 <= len(st.iter.elts) <= 6):
+            return None
+        atom = lambda e: isinstance(e, ast.Name) or (isinstance(e, ast.Constant) and isinstance(e.value, (int, str, bytes, bool, type(None))))
+        if isinstance(st.target, ast.Name):
+            names = [st.target.id]
+            rows = [[e] for e in st.iter.elts]
+        elif isinstance(st.target, ast.Tuple) and all(isinstance(e, ast.Name) for e in st.target.elts):
+            names = [e.id for e in st.target.elts]
+            if not all(isinstance(e, ast.Tuple) and len(e.elts) == len(names) for e in st.iter.elts):
+                return None
+            rows = [list(e.elts) for e in st.iter.elts]
+        else:
+            return None
+        if len(set(names)) != len(names) or not all(atom(e) for r in rows for e in r):
+            return None
+        for b in st.body:
+            for n in ast.walk(b):
+                if isinstance(n, (ast.Break, ast.Continue, ast.FunctionDef, ast.Lambda, ast.ListComp, ast.GeneratorExp, ast.DictComp, ast.SetComp)):
+                    return None
+                if isinstance(n, ast.Name) and n.id in names and not isinstance(n.ctx, ast.Load):
+                    return None
+        # the row atoms must not be assigned in the body either (they are read again by the later copies)
+        row_names = {e.id for r in rows for e in r if isinstance(e, ast.Name)}
+        for b in st.body:
+            for n in ast.walk(b):
+                if isinstance(n, ast.Name) and n.id in row_names and not isinstance(n.ctx, ast.Load):
+                    return None
+        inside = {id(n) for n in ast.walk(st)}
+        scope = getattr(self, "f", None)
+        if scope is None or any(isinstance(n, ast.Name) and n.id in names and id(n) not in inside for n in ast.walk(scope)) or any(n in env for n in names):
+            return None
+        import copy
+
+        class Sub(ast.NodeTransformer):
+            def __init__(s2, m):
+                s2.m = m
+
+            def visit_Name(s2, n):
+                if n.id in s2.m and isinstance(n.ctx, ast.Load):
+                    return ast.copy_location(copy.deepcopy(s2.m[n.id]), n)
+                return n
+        out = []
+        for r in rows:
+            m = dict(zip(names, r))
+            for b in st.body:
+                out.append(ast.fix_missing_locations(Sub(m).visit(copy.deepcopy(b))))
+        return out
 
     def full_rty(self):
         if self.acc:
